@@ -331,7 +331,10 @@ def verify_clear(run):
 def build(run):
     run.assume("A-REAL", "A-NP", "A-PY", "A-MSG", "A-LOG", "A-LISTVAL")
     rp = {"module": W_N, "func": "replay_cascade", "kwargs": {}, "vars": {}}
-    for fq, f in (("variable.OutputVariable.defuzzify", verify_defuzzify), ("variable.OutputVariable.clear", verify_clear)):
+    # "the previous call" of an engine's output variable is the previous Engine.process(): between two defuzzifications process() touches only the fuzzy
+    # output (driver shared with C01: clear_touches_only_fuzzy_outputs, activation_touches_only_rules_and_fuzzy_outputs, every output defuzzified once)
+    from props import C01
+    for fq, f in (("variable.OutputVariable.defuzzify", verify_defuzzify), ("variable.OutputVariable.clear", verify_clear), ("engine.Engine.process", C01.verify_process)):
         try:
             f(run)
         except Unsupported as ex_:
